@@ -419,6 +419,9 @@ def run_check(run, tier):
     run.hashes.update(sess.repo.hashes)
     from checks import c04_history
     c04_history.run_part(run, tier)
+    from checks import decoder_checks as DCK
+    recs, _ = DCK.run_pool(run, 'C04')
+    DCK.absorb(run, recs)
     # failed deductive obligations: look for a concrete failing stream (refute mode), then report
     finish_failures(run, 'C04')
 
